@@ -34,6 +34,9 @@ func newResult() *result { return &result{counts: map[string]int{}} }
 
 // emitTrace appends "cfg", the recorded events with the Go monitor's verdicts, and "quiet"/"end".
 func (r *result) emitTrace(wd *world, quiet bool) {
+	if wd.silent {
+		wd.resolveSilent()
+	}
 	wd.mu.Lock()
 	evs := append([]string(nil), wd.events...)
 	wd.mu.Unlock()
@@ -276,6 +279,9 @@ func runSched(name string) *result {
 		}
 		complete := ok && wd.waitComplete(bound)
 		zero := ok && wd.waitZero(shortBound)
+		if wd.silent {
+			wd.resolveSilent()
+		}
 		out = wd.outcome(complete, zero)
 		if len(wd.hangs) > 0 {
 			r.hangFail(wd, wd.hangs[0], map[string]string{"schedule": name})
@@ -541,6 +547,17 @@ func runCase(c runCfg) *result {
 			return r
 		}
 		c.mode = "pending"
+	} else if inner, isSilent := strings.CutPrefix(c.mode, "silent-"); isSilent {
+		// the pool rejects silently (no WithPanicOnSubmitAfterShutdown); only without cancel-on-shutdown, where "accepted" can
+		// be told from "ran" at the end
+		if c.cancel {
+			r.lines = append(r.lines, [2]string{"silent-needs-no-cancel", "bad-descriptor"})
+
+			return r
+		}
+		wd = newWorldOpt(c.w, false, false)
+		c.mode = inner
+		r.count("silent-reject-cases")
 	} else {
 		wd = newWorld(c.w, c.cancel)
 	}
